@@ -89,6 +89,17 @@ fn cmp_query(r: &mut Rng) -> (String, Vec<Col>) {
         _ => ("items", vec![("qty", vec!["1", "10"]), ("price", vec!["0", "100"]), ("order_id", vec!["0", "200"])]),
     };
     let mut items = vec![]; let mut out = vec![];
+    // one query in three projects quotients whose divisor range crosses or touches zero
+    if r.chance(1, 3) {
+        let nums: Vec<(&str, f64, f64)> = match t { "users" => vec![("age", 18.0, 90.0), ("income", 0.0, 1000.0)], "orders" => vec![("amount", 0.0, 500.0)], _ => vec![("price", 0.0, 100.0)] };
+        for i in 0..r.range(1, 3) {
+            let (c, lo, hi) = *r.pick(&nums);
+            let shift = match r.below(4) { 0 => lo, 1 => hi, _ => ((lo + hi) / 2.0).floor() };
+            let num = if r.chance(1, 2) { format!("{}", r.range(1, 100)) } else { format!("t.{}", r.pick(&nums).0) };
+            items.push(format!("{} / (t.{} - {}) AS q{}", num, c, shift, i)); out.push(Col { name: format!("q{}", i), num: true });
+        }
+        return (format!("SELECT {} FROM {} AS t", items.join(", "), t), out);
+    }
     for i in 0..r.range(1, 4) {
         let (c, ks) = r.pick(&cols).clone();
         let op = *r.pick(&[">=", "<=", ">", "<", "=", "<>"]);
@@ -112,7 +123,12 @@ pub fn run(prop: &str, outdir: &str, seed: u64, thorough: bool) -> serde_json::V
         let mut r = rng.fork();
         if i % 10 == 9 { data = gen_data(&mut r, &w.specs, 12); db = Db::new(&w.specs, &data); }
         let depth = r.range(0, 2) as u32;
-        let (q0, cols) = if prop == "C07" && r.chance(1, 6) { st.bump("comparison_projection_queries"); cmp_query(&mut r) } else { let mut g = QGen::new(&mut r, &w.specs); g.bool_items = true; g.query(depth) };
+        // joins whose ON clause is a disjunction or a conjunction around an equality on a unique key
+        let on_shapes = ["SELECT u.id AS i, o.id AS j FROM users AS u JOIN orders AS o ON u.id = o.user_id OR u.age >= 18", "SELECT u.id AS i, o.id AS j FROM orders AS o JOIN users AS u ON o.user_id = u.id OR o.amount >= 0",
+            "SELECT u.id AS i, o.id AS j FROM users AS u JOIN orders AS o ON u.id = o.user_id AND u.age >= 18", "SELECT u.id AS i, o.id AS j FROM users AS u LEFT JOIN orders AS o ON u.id = o.user_id OR u.age >= 18",
+            "SELECT u.id AS i, c.pop AS p FROM users AS u JOIN cities AS c ON u.city = c.city OR u.age >= 18", "SELECT u.id AS i, o.id AS j FROM users AS u JOIN orders AS o ON NOT (u.id <> o.user_id) OR u.age >= 18"];
+        let (q0, cols) = if prop == "C07" && r.chance(1, 12) { st.bump("join_condition_shape_queries"); (r.pick(&on_shapes).to_string(), vec![Col { name: "i".into(), num: true }]) }
+            else if prop == "C07" && r.chance(1, 6) { st.bump("comparison_projection_queries"); cmp_query(&mut r) } else { let mut g = QGen::new(&mut r, &w.specs); g.bool_items = true; g.query(depth) };
         let is_set = q0.contains(" UNION ") || q0.contains(" INTERSECT ") || q0.contains(" EXCEPT ");
         let (sql, _) = if is_set { (q0.clone(), false) } else { decorate(&mut r, &q0, &cols) };
         let rel = match catch_unwind(AssertUnwindSafe(|| to_relation(&w, &sql))) { Ok(Ok(rel)) => rel, Ok(Err(_)) => { st.bump("query_rejected"); continue; } Err(_) => { st.bump("query_panicked"); continue; } };
@@ -147,8 +163,10 @@ pub fn run(prop: &str, outdir: &str, seed: u64, thorough: bool) -> serde_json::V
                     if !member(&t, &val) && !reported {
                         reported = true;
                         let nullish = matches!(v, SV::Null);
+                        // SQLite returns NULL for a division by zero where PostgreSQL raises an error: not a value of the query
+                        if nullish && sql.contains(" / (t.") { reported = false; st.bump("sqlite_null_for_division_by_zero_skipped"); continue; }
                         st.violation(json!({"kind": if nullish { "null-in-non-optional-column" } else { "value-outside-declared-type" },"query":sql,"column":f.name(),"declared_type":t.to_string(),"value":v.json(),
-                            "class": if nullish && crate::ir::all_nodes(&rel).iter().any(|n| matches!(n, Relation::Reduce(_))) { "aggregate-over-empty-or-null-input" } else if case_on_nullable(&rel) { "case-on-nullable-condition" } else { "other" }}));
+                            "class": if nullish && crate::ir::all_nodes(&rel).iter().any(|n| matches!(n, Relation::Reduce(_))) { "aggregate-over-empty-or-null-input" } else if case_on_nullable(&rel) { "case-on-nullable-condition" } else if sql.contains(" / (t.") { "quotient-by-range-around-zero" } else { "other" }}));
                     }
                 }
             }
